@@ -1689,6 +1689,19 @@ func c15RouteDump(c *Ctx, rule string) {
 				}
 			}
 		})
+		// … or stores it at the message's index in a slice sized for the dump
+		p.Instrs(func(in ssa.Instruction) {
+			if st, ok := in.(*ssa.Store); ok {
+				ia, isElem := st.Addr.(*ssa.IndexAddr)
+				if !isElem {
+					return
+				}
+				// (an element of a real slice, not of the one-element array go/ssa builds for append's variadic argument)
+				if _, isSlice := ia.X.Type().Underlying().(*types.Slice); isSlice && strings.HasSuffix(typeStr(st.Val.Type()), "system.Route") {
+					elems = append(elems, p.Of(st.Val))
+				}
+			}
+		})
 		if len(elems) != 1 {
 			bad = fmt.Sprintf("an iteration over the dump appends %d routes (%s)", len(elems), atomsString(p))
 			continue
